@@ -25,7 +25,7 @@ ASSUMPTIONS = [
 
 PROFILE = scenario.profile(
     maxD=3, extra_budget=(10, 90), cons_x0=("margin",), p_cons=0.15,
-    max_iter_choices=(None,), tol_mesh_choices=(None, None, 1e-6, 1e-3, 0.1),
+    max_iter_choices=(None,), tol_mesh_choices=(None, None, 1e-6, 1e-3, 0.1, 0.125, 0.0625, 0.5),
     noise_modes=("none", "none", "none", "auto", "declared", "specified"),
 )
 PROFILE_T = dict(PROFILE, maxD=6, extra_budget=(10, 300))
